@@ -103,7 +103,7 @@ CLAIMED['C02'] = dict(
           'EM step of the diagonal-covariance GMM (Bayes posterior, weight_sal, g_mean, g_cov_diag of the model) never decreases the '
           'log-likelihood for any K, D, N, data and current model, hence neither does any number of steps, and the executable '
           'whole-loop model gmm_fit of Model/GMMLoop.v - the function compared with GMMTrainer.fit(iterations=n) on every run - '
-          'is proved to BE that iteration on the real-number instance (C02_gmm_loop_model_monotone; the spherical-covariance GMM step with the pooled variance g_cov_sph is discharged the same way, C02_gmm_spherical_em_step_ascent, and the diagonal step with an arbitrary positive saliency, C02_gmm_diagonal_saliency_em_step_ascent; guard: posterior floor, mass '
+          'is proved to BE that iteration on the real-number instance (C02_gmm_loop_model_monotone; the spherical-covariance GMM step with the pooled variance g_cov_sph is discharged the same way, C02_gmm_spherical_em_step_ascent with its own executable loop model gmm_fit_sph, C02_gmm_spherical_loop_model_monotone, and the diagonal step with an arbitrary positive saliency, C02_gmm_diagonal_saliency_em_step_ascent; guard: posterior floor, mass '
           'floor inactive, new variances positive; guard shown satisfiable). Not proved: that the full-covariance Gaussian, cACG matrix and Watson '
           'spline M-steps do not decrease Q - this hypothesis is EVALUATED on every recorded step of the implementation. Tie to '
           '/repo on every run: recorded trajectories of cACGMM, cWMM, GMM (3 covariance types), GCACGMM over all tying / saliency / '
